@@ -24,6 +24,8 @@ def _wr(oracle, tier="quick"):
                                                  "name": i % len(P.NAMES), "bpath": (i + 2) % len(P.NAMES)}, "timeout": 600})
     for pk in ("none", "value", "code", "data", "proxy"):
         out.append({"fn": "w_symbol", "consts": {"oracle": oracle, "pk": pk, "name": 0 if pk == "value" else 2}, "timeout": 600})
+    for pk in ("code", "data"):
+        out.append({"fn": "w_symbol", "consts": {"oracle": oracle, "pk": pk, "name": 1, "bsize": 0}, "timeout": 600})
     for kind in ("const", "addr"):
         for key, amask in ((0, 0), (2 ** 64 - 1, 7), (5, 4), (5, 3)):
             out.append({"fn": "w_expr", "consts": {"oracle": oracle, "kind": kind, "key": key, "amask": amask}, "timeout": 600})
